@@ -144,8 +144,107 @@ func genMalformed(r *rand.Rand, thorough bool, emit func(c, cat string)) {
 
 // ---- serve
 
+// mix=linger (kind=all): on every connection-oriented listener at once, ONE client connection carries a query
+// whose upstream answer takes 3.5 s and then, on the same connection (now older than 3.5 s), a second query.
+// mix=huge: the first query's upstream answer re-packs to more than 65535 octets (700 records of 112 octets);
+// the response must still be one decodable message (a truncated, intact prefix) and the stream stays usable.
+func runLinger(m map[string]string) string {
+	firstLabel, huge := "late", false
+	if m["mix"] == "huge" {
+		firstLabel, huge = "big700", true
+	}
+	var answered, once, idok, own, rcodeok int
+	var mu sync.Mutex
+	judge := func(id uint16, name []byte, resp []byte) {
+		mu.Lock()
+		defer mu.Unlock()
+		answered++
+		once++
+		rm, err := dnsmsg.UnpackMsg(resp)
+		if err != nil {
+			return
+		}
+		defer dnsmsg.ReleaseMsg(rm)
+		if rm.Header.ID == id && rm.Header.Response && rm.Header.RecursionAvailable && rm.Header.RecursionDesired {
+			idok++
+		}
+		if rm.Header.RCode == dnsmsg.RCodeSuccess {
+			rcodeok++
+		}
+		if huge && name[1] == 'b' {
+			intact := len(rm.Answers) > 0 && len(rm.Questions) <= 1
+			for i, rr := range rm.Answers {
+				raw, ok := rr.(*dnsmsg.RawResource)
+				if !ok || len(raw.Data) != 100 || raw.Data[0] != 99 || raw.Data[1] != byte(i) {
+					intact = false
+				}
+			}
+			if intact {
+				own++
+			}
+			return
+		}
+		if len(rm.Questions) <= 1 && len(rm.Answers) == 1 {
+			if a, isA := rm.Answers[0].(*dnsmsg.A); isA && a.A == answerFor(name, 1, 1) {
+				own++
+			}
+		}
+	}
+	seed := atoi(m["seed"])
+	var wg sync.WaitGroup
+	kinds := []string{"tcp", "gnet", "tls", "http", "https", "fasthttp", "quic"}
+	for ki, kind := range kinds {
+		ki, kind := ki, kind
+		wg.Add(1)
+		go func() {
+			defer wg.Done()
+			n1 := wireLabels([]byte(firstLabel), []byte(fmt.Sprintf("s%d", seed)), []byte("linger"), []byte(kind))
+			if !huge {
+				n1 = wireLabels([]byte(fmt.Sprintf("late%d", seed)), []byte("linger"), []byte(kind))
+			}
+			n2 := wireLabels([]byte(fmt.Sprintf("ok%d", seed)), []byte("linger"), []byte(kind))
+			id1, id2 := uint16(seed+ki*2+1), uint16(seed+ki*2+2)
+			switch kind {
+			case "tcp", "gnet", "tls":
+				c, err := lfix.dialStream(kind)
+				if err != nil {
+					return
+				}
+				defer c.Close()
+				for _, q := range []struct {
+					id   uint16
+					name []byte
+				}{{id1, n1}, {id2, n2}} {
+					c.Write(frame(buildQuery(q.id, q.name, 1, false, 0)))
+					c.SetReadDeadline(time.Now().Add(8 * time.Second))
+					b, err := readFrame(c)
+					if err != nil {
+						return
+					}
+					judge(q.id, q.name, b)
+				}
+			default:
+				for _, q := range []struct {
+					id   uint16
+					name []byte
+				}{{id1, n1}, {id2, n2}} {
+					res := lfix.exchange(kind, buildQuery(q.id, q.name, 1, false, 0), "post", 8*time.Second)
+					if res.status == "resp" {
+						judge(q.id, q.name, res.resp)
+					}
+				}
+			}
+		}()
+	}
+	wg.Wait()
+	return fmt.Sprintf("sent=%d answered=%d once=%d idok=%d own=%d rcodeok=%d", 2*len(kinds), answered, once, idok, own, rcodeok)
+}
+
 func runServe(cs string) string {
 	m := kv(cs)
+	if m["mix"] == "linger" || m["mix"] == "huge" {
+		return runLinger(m)
+	}
 	kind := m["kind"]
 	n, conc := atoi(m["n"]), atoi(m["conc"])
 	r := rand.New(rand.NewSource(int64(atoi(m["seed"]))))
@@ -250,6 +349,8 @@ func genServe(r *rand.Rand, thorough bool, emit func(c, cat string)) {
 			emit(fmt.Sprintf("kind=%s n=%d conc=%d mix=%s seed=%d", kind, n, []int{1, 8, 32}[r.Intn(3)], mix, r.Intn(1<<30)), kind+"-"+mix)
 		}
 	}
+	emit(fmt.Sprintf("kind=all n=14 conc=7 mix=linger seed=%d", r.Intn(30000)), "all-linger")
+	emit(fmt.Sprintf("kind=all n=14 conc=7 mix=huge seed=%d", r.Intn(30000)), "all-huge")
 	if thorough {
 		for _, kind := range listenerKinds {
 			emit(fmt.Sprintf("kind=%s n=6 conc=6 mix=silent seed=%d", kind, r.Intn(1<<30)), kind+"-silent")
